@@ -79,3 +79,143 @@ func VH_C06_RevertV2Revision() {
 	}
 	vh.Reach("end")
 }
+
+func vhConcretePoW(n *Network, s *State) {
+	n.BlockInterval = 10 * time.Minute
+	n.HardforkDevAddr.Height, n.HardforkTax.Height, n.HardforkStorageProof.Height = 1, 2, 3
+	n.HardforkOak.Height, n.HardforkOak.FixHeight, n.HardforkASIC.Height, n.HardforkFoundation.Height = 4, 5, 6, 7
+	n.HardforkOak.GenesisTimestamp = time.Unix(1000, 0)
+	n.HardforkASIC.OakTime, n.HardforkASIC.OakTarget = 10000*time.Second, types.BlockID{4: 1}
+	n.HardforkV2.AllowHeight, n.HardforkV2.RequireHeight, n.HardforkV2.FinalCutHeight = 40, 45, 48
+	s.Index.Height = 50
+	s.Difficulty, s.TotalWork, s.OakWork = Work{}, Work{}, Work{}
+	s.Difficulty.n[26], s.OakWork.n[25], s.TotalWork.n[20] = 1, 4, 1
+	s.OakTime = 30000 * time.Second
+	s.Depth, s.ChildTarget, s.OakTarget = types.BlockID{}, types.BlockID{}, types.BlockID{}
+	for i := range s.PrevTimestamps {
+		s.PrevTimestamps[i] = time.Unix(int64(40000-600*i), 0)
+	}
+}
+
+// One v2 block that spends a siacoin and a siafund element and creates one
+// output of each kind (plus the claim and the miner payout), applied with the
+// real ApplyBlock and reverted with the real RevertBlock:
+//   - RevertBlock reports exactly the diffs ApplyBlock reported, reversed;
+//   - after the apply every reported element (created: unspent, parents: spent)
+//     and both bystanders verify against the child state;
+//   - after the revert the spent parents verify as unspent and the bystanders'
+//     proofs are back to the parent state's;
+//   - applying again gives the same state and diffs.
+// Proof-of-work fields are concrete (not the subject; C13).
+func VH_C06_BlockRoundTrip() {
+	n := vhNetwork("net")
+	s := vhState("s", n)
+	vhConcretePoW(n, &s)
+	s.FoundationSubsidyAddress = types.VoidAddress
+	vh.Assume(s.SiafundTaxRevenue.Hi < 1<<56)
+	vh.Assume(s.Index.ID != types.BlockID{}) // the tip's ID is a hash; the zero parent ID means 'genesis' to ApplyHeader
+	gs := make([]vhGenuine, 4)
+	for i := range gs {
+		gs[i].kind = i
+	}
+	vh.Fill("g0", &gs[0].sce)
+	vh.Fill("g1", &gs[1].sfe)
+	vh.Fill("g2", &gs[2].fce)
+	vh.Fill("g3", &gs[3].cie)
+	gs[0].sce.ID = vh.GenuineID("g0.sc0")
+	gs[1].sfe.ID = vh.GenuineID("g1.sf0")
+	gs[2].fce.ID = vh.GenuineID("g2.fc0")
+	gs[3].cie.ID = vh.GenuineID("g3.cie0")
+	vh.Assume(vh.And(gs[0].sce.SiacoinOutput.Value.Hi < 1<<56, gs[1].sfe.SiafundOutput.Value <= 10000, gs[1].sfe.ClaimStart.Cmp(s.SiafundTaxRevenue) <= 0))
+	f0 := vhNaiveForestOf(gs)
+	s.Elements = ElementAccumulator{NumLeaves: 4, Trees: f0.trees}
+	proofOf := func(i int) types.StateElement {
+		return types.StateElement{LeafIndex: uint64(i), MerkleProof: append([]types.Hash256(nil), f0.proofs[i]...)}
+	}
+	var b types.Block
+	b.MinerPayouts = make([]types.SiacoinOutput, 1)
+	b.V2 = &types.V2BlockData{Transactions: make([]types.V2Transaction, 1)}
+	t := &b.V2.Transactions[0]
+	t.SiacoinInputs = make([]types.V2SiacoinInput, 1)
+	t.SiafundInputs = make([]types.V2SiafundInput, 1)
+	t.SiacoinOutputs = make([]types.SiacoinOutput, 1)
+	t.SiafundOutputs = make([]types.SiafundOutput, 1)
+	vh.Fill("b", &b)
+	b.ParentID = s.Index.ID
+	b.Timestamp = time.Unix(40600, 0)
+	b.V2.Height = 51
+	t.SiacoinInputs[0].Parent = gs[0].sce
+	t.SiacoinInputs[0].Parent.StateElement = proofOf(0)
+	t.SiacoinInputs[0].SatisfiedPolicy = types.SatisfiedPolicy{Policy: types.PolicyAbove(0)}
+	t.SiafundInputs[0].Parent = gs[1].sfe
+	t.SiafundInputs[0].Parent.StateElement = proofOf(1)
+	t.SiafundInputs[0].SatisfiedPolicy = types.SatisfiedPolicy{Policy: types.PolicyAbove(0)}
+
+	s2, au := ApplyBlock(s, b, V1BlockSupplement{}, time.Unix(40600, 0))
+	ru := RevertBlock(s, b, V1BlockSupplement{})
+
+	// same diffs, reversed
+	as, rs := au.SiacoinElementDiffs(), ru.SiacoinElementDiffs()
+	vh.Assert(vh.And(len(as) == len(rs), len(as) == 4), "siacoin diffs: parent, output, claim, miner payout expected")
+	for i := range as {
+		a, r := as[i], rs[len(rs)-1-i]
+		vh.Assert(vh.And(a.SiacoinElement.ID == r.SiacoinElement.ID, a.SiacoinElement.SiacoinOutput == r.SiacoinElement.SiacoinOutput,
+			a.SiacoinElement.MaturityHeight == r.SiacoinElement.MaturityHeight, a.Created == r.Created, a.Spent == r.Spent), "revert reports a different siacoin diff than apply")
+	}
+	af, rf := au.SiafundElementDiffs(), ru.SiafundElementDiffs()
+	vh.Assert(vh.And(len(af) == len(rf), len(af) == 2), "siafund diffs: parent and output expected")
+	for i := range af {
+		a, r := af[i], rf[len(rf)-1-i]
+		vh.Assert(vh.And(a.SiafundElement.ID == r.SiafundElement.ID, a.SiafundElement.SiafundOutput == r.SiafundElement.SiafundOutput,
+			a.SiafundElement.ClaimStart == r.SiafundElement.ClaimStart, a.Created == r.Created, a.Spent == r.Spent), "revert reports a different siafund diff than apply")
+	}
+	vh.Assert(au.ChainIndexElement().ID == ru.ChainIndexElement().ID, "chain index element ID differs between apply and revert")
+	vh.Assert(au.ChainIndexElement().ChainIndex == ru.ChainIndexElement().ChainIndex, "chain index differs between apply and revert")
+	vh.Assert(au.ChainIndexElement().ChainIndex.Height == s2.Index.Height, "chain index element height is not the child state's height")
+	vh.Assert(au.ChainIndexElement().ChainIndex.ID == s2.Index.ID, "chain index element ID is not the child state's ID")
+	vh.Assert(b.ID() == s2.Index.ID, "child state's ID is not the block ID")
+	vh.Assert(b.Header().ID() == s2.Index.ID, "child state's ID is not the header ID")
+
+	// after the apply
+	vh.Assert(s2.Elements.NumLeaves == 4+3+1+1, "child accumulator does not hold the 4 old and the 5 new leaves")
+	for _, d := range as {
+		if d.Spent {
+			vh.Assert(vh.And(!d.Created, s2.Elements.containsSpentSiacoinElement(d.SiacoinElement.Copy())), "spent siacoin parent does not verify as spent in the child state")
+		} else {
+			vh.Assert(vh.And(d.Created, s2.Elements.containsUnspentSiacoinElement(d.SiacoinElement.Copy())), "created siacoin element does not verify in the child state")
+		}
+	}
+	for _, d := range af {
+		if d.Spent {
+			vh.Assert(s2.Elements.containsSpentSiafundElement(d.SiafundElement.Copy()), "spent siafund parent does not verify as spent in the child state")
+		} else {
+			vh.Assert(s2.Elements.containsUnspentSiafundElement(d.SiafundElement.Copy()), "created siafund element does not verify in the child state")
+		}
+	}
+	vh.Assert(s2.Elements.containsChainIndex(au.ChainIndexElement()), "new chain index element does not verify in the child state")
+	by2, by3 := gs[2].fce, gs[3].cie
+	by2.StateElement, by3.StateElement = proofOf(2), proofOf(3)
+	au.UpdateElementProof(&by2.StateElement)
+	au.UpdateElementProof(&by3.StateElement)
+	vh.Assert(vh.And(s2.Elements.containsUnresolvedV2FileContractElement(by2.Copy()), s2.Elements.containsChainIndex(by3.Copy())), "tracked bystander does not verify in the child state after the update")
+
+	// after the revert
+	ru.UpdateElementProof(&by2.StateElement)
+	ru.UpdateElementProof(&by3.StateElement)
+	vh.Assert(vh.And(vhProofEq(by2.StateElement.MerkleProof, f0.proofs[2]), vhProofEq(by3.StateElement.MerkleProof, f0.proofs[3])), "tracked bystander's proof is not restored by the revert")
+	for _, d := range rs {
+		if d.Spent && !d.Created {
+			vh.Assert(s.Elements.containsUnspentSiacoinElement(d.SiacoinElement.Copy()), "reverted siacoin parent does not verify as unspent in the parent state")
+		}
+	}
+	for _, d := range rf {
+		if d.Spent && !d.Created {
+			vh.Assert(s.Elements.containsUnspentSiafundElement(d.SiafundElement.Copy()), "reverted siafund parent does not verify as unspent in the parent state")
+		}
+	}
+
+	// apply again: identical
+	s3, au3 := ApplyBlock(s, b, V1BlockSupplement{}, time.Unix(40600, 0))
+	vh.Assert(vh.And(vh.Eq(s3, s2), vh.Eq(au3.SiacoinElementDiffs(), au.SiacoinElementDiffs()), vh.Eq(au3.SiafundElementDiffs(), au.SiafundElementDiffs())), "re-applying the block after the revert gives a different state or diffs")
+	vh.Reach("end")
+}
